@@ -21,13 +21,20 @@ pub fn run(args: &Args) {
         let volume = *r.pick(&[100u8, 100, 50, 200, 1]);
         let ay = ci % 4 == 3 || (8..16).contains(&ci);
         let drain = match ci % 6 { 4 => "sometimes", 5 => "never", _ => "always" };
+        // a host may start muted and switch the sound on later; a machine may be configured without the beeper device
+        // (then the program's speaker/MIC writes are not heard: with the AY off as well the samples are all zero)
+        let muted_start = ci % 3 == 1;
+        let beeper = ay || ci % 8 != 6;
         let mut cfg = EmuCfg::new(m128);
-        cfg.sound = true;
-        cfg.beeper = true;
+        cfg.sound = !muted_start;
+        cfg.beeper = beeper;
         cfg.ay = ay;
         cfg.rate = rate;
         cfg.volume = volume;
         let mut emu = cfg.build();
+        if muted_start {
+            emu.set_sound(true);
+        }
         poke_bytes(&mut emu, CODE, &[0xED, 0x79, 0x18, 0xFE]);
         {
             let c = emu.verif_cpu();
@@ -46,7 +53,7 @@ pub fn run(args: &Args) {
                 }
             }
         }
-        out.ev(json!({"ev":"acfg","m": if m128 {128} else {48},"rate":rate,"volume":volume,"ay":ay,"drain":drain}));
+        out.ev(json!({"ev":"acfg","m": if m128 {128} else {48},"rate":rate,"volume":volume,"ay":ay,"drain":drain,"muted_start":muted_start,"beeper":beeper}));
         // first frame (not judged): bring the machine to a frame boundary with an empty queue
         let finish = |emu: &mut Emu| {
             let c = emu.verif_cpu();
@@ -116,7 +123,12 @@ pub fn run(args: &Args) {
             }
             finish(&mut emu);
             let do_drain = match drain { "always" => true, "never" => false, _ => f % 3 != 1 };
-            let mut ev = json!({"ev":"aframe","writes":writes,"start":start_level,"drained":do_drain});
+            // (without the beeper device the level heard is 0 whatever the program writes)
+            let mut ev = if beeper {
+                json!({"ev":"aframe","writes":writes,"start":start_level,"drained":do_drain})
+            } else {
+                json!({"ev":"aframe","writes":[],"start":0,"drained":do_drain,"unheard":writes})
+            };
             if do_drain {
                 let mut samples: Vec<(f32, f32)> = vec![];
                 while let Some(s) = emu.next_audio_sample() {
